@@ -268,6 +268,25 @@ def propagate_cases(rng, n):
         if t in (B.INT, B.REAL) and rng.random() < 0.5:
             atoms.append(('le', None, (rng.choice(syms), rng.choice(
                 syms + consts))))
+        if t[0] in ('Int', 'Real', 'BV') and rng.random() < 0.4:
+            # a quantified conjunct that binds one of the symbols and
+            # mentions another one: propagating "other = bound name" into it
+            # must not capture
+            v = rng.choice(syms)
+            o = rng.choice(syms + consts)
+            rel = rng.choice(['eq', 'neq', 'lt'])
+            if t[0] == 'BV':
+                body = {'eq': ('eq', None, (v, o)),
+                        'neq': ('not', None, (('eq', None, (v, o)),)),
+                        'lt': ('bvult', None, (o, v))}[rel]
+            else:
+                body = {'eq': ('eq', None, (v, o)),
+                        'neq': ('not', None, (('eq', None, (v, o)),)),
+                        'lt': ('lt', None, (o, v))}[rel]
+            if rng.random() < 0.5:
+                body = ('or', None, (body, B.Sym('p0', B.BOOL)))
+            atoms.append((rng.choice(['exists', 'forall']), (v[1],),
+                          (body,)))
         if rng.random() < 0.3:
             # a nested conjunction and a non-toplevel equality
             atoms.append(('and', None, (('eq', None, (syms[0], syms[1])),
@@ -350,6 +369,7 @@ def run(rep):
                     j += 1
     n = 260 if quick else 30000
     cfgs = bool_cfgs()
+    rep.share(0.45)
     for k in range(n):
         if rep.out_of_time():
             rep.notes.append('boolean workload truncated at %d' % k)
@@ -363,6 +383,7 @@ def run(rep):
             if want(proc):
                 ck.check(proc, b, j)
                 j += 1
+    rep.share(0.55)
     for b in sum_product_cases(rng, 120 if quick else 15000):
         if rep.out_of_time():
             break
@@ -370,6 +391,7 @@ def run(rep):
             ck.check('times_distributor', b, j)
             j += 1
     common.fresh_env()
+    rep.share(0.7)
     for b in propagate_cases(rng, 150 if quick else 20000):
         if rep.out_of_time():
             break
@@ -378,6 +400,7 @@ def run(rep):
                 ck.check(proc, b, j)
                 j += 1
     common.fresh_env()
+    rep.share(0.88)
     for b in qelim_cases(rng, 100 if quick else 10000, False):
         if rep.out_of_time():
             break
@@ -386,6 +409,7 @@ def run(rep):
             if want(proc):
                 ck.check(proc, b, j)
                 j += 1
+    rep.share(1.0)
     for b in qelim_cases(rng, 100 if quick else 10000, True):
         if rep.out_of_time():
             break
